@@ -2,7 +2,7 @@
 from analysis.facts import callee, callee_short, tyname
 from analysis.cfg import cfg
 from analysis.defuse import Tracer, fields_of
-from analysis.guards import GuardFlow
+from analysis.guards import GuardFlow, resolve_cond
 from analysis.fieldcov import fields_read, _places_read, fields_in_place
 from analysis.tables import const_strings_of_operand
 
@@ -185,13 +185,35 @@ def run(chk, prog):
                                bool(vs) and all(v['rel'] is True for v in vs),
                                'the leading "." is emitted only when is_relative',
                                'the renderer emits the leading "." under %s' % vs, c.loc(bb))
+        # the local(s) that end up in the is_relative field of the Path the parser builds (found through the aggregate,
+        # not by name)
+        from analysis.defuse import du as _du
+        rel_locals, direct_cond = set(), []
+        for bb, si, s in parser.stmts():
+            if s['k'] == 'assign' and s['rv']['k'] == 'agg' and s['rv'].get('ak') == 'adt' \
+                    and tyname(s['rv']['adt']) == 'Path' and 'is_relative' in s['rv']['fields']:
+                o = s['rv']['ops'][s['rv']['fields'].index('is_relative')]
+                if o['k'] in ('copy', 'move') and 'p' not in o['pl']:
+                    work = [o['pl']['l']]
+                    while work:
+                        l_ = work.pop()
+                        if l_ in rel_locals:
+                            continue
+                        rel_locals.add(l_)
+                        for df in _du(parser).defs.get(l_, []):
+                            if df['kind'] == 'assign' and df['rv']['k'] == 'use' and df['rv']['op']['k'] in ('copy', 'move') \
+                                    and 'p' not in df['rv']['op']['pl']:
+                                work.append(df['rv']['op']['pl']['l'])
+                    direct_cond.append(o)
         tr_assign = []
         for bb, si, s in parser.stmts():
-            if s['k'] == 'assign' and parser.local_name(s['pl']['l']) == 'is_relative' and s['rv']['k'] == 'use' \
+            if s['k'] == 'assign' and 'p' not in s['pl'] and s['pl']['l'] in rel_locals and s['rv']['k'] == 'use' \
                     and 'bool' in s['rv']['op']:
                 tr_assign.append((bb, s['rv']['op']['bool']))
         def atom2(desc):
             if desc[0] == 'is_some' and any('strip_prefix' in a for a in desc[1]):
+                return 'dot'
+            if desc[0] == 'call' and desc[1].rsplit('::', 1)[-1] == 'starts_with':
                 return 'dot'
             return None
         gp = GuardFlow(prog, parser, atom2, tracer=tr)
@@ -201,6 +223,13 @@ def run(chk, prog):
             vs = gp.valuations_at(bb, ['dot'])
             if not vs or any(v['dot'] is not val for v in vs):
                 okrel = False
+        if not tr_assign and direct_cond:
+            # `is_relative: text.starts_with('.')` / a local holding that test
+            okrel = True
+            for o in direct_cond:
+                c_ = resolve_cond(prog, parser, o, tr)
+                if c_ is None or atom2(c_.desc) != 'dot' or not c_.positive:
+                    okrel = False
         chk.decide(RB, chk.key(RB, 'parser-sets-relative-iff-dot'), okrel,
                    'is_relative is set true exactly on the stripped-prefix path',
                    'the parser does not set is_relative exactly when the leading "." was present (%s)' % tr_assign,
